@@ -48,8 +48,23 @@ def gen_script(rng, big=True):
         else:
             x = rng.random()
             n = rng.choice(LENS) if (big and x < 0.55) else rng.randint(76, 520) if (big and x < 0.65) else rng.randint(1, 80)
-            cmds.append({"d": rng.randbytes(n).hex()})
+            cmds.append({"d": gen_content(rng, n).hex()})
     return cmds
+
+
+def gen_content(rng, n):
+    """Element bytes: random, or a pattern that content-dependent code would treat specially (all zero / all ones,
+    small numbers that have dedicated opcodes, bytes that look like push opcodes or varint markers)."""
+    x = rng.random()
+    if x < 0.6 or n == 0:
+        return rng.randbytes(n)
+    if x < 0.7:
+        return bytes([rng.choice([0x00, 0xff, 0x80, 0x4c, 0x4d, 0x4e, 0xfd, 0xfe])]) * n
+    if x < 0.8:
+        return bytes([rng.choice(list(range(0, 18)) + [0x4b, 0x4c, 0x4d, 0x4e, 0x4f, 0x50, 0x51, 0x60, 0x7f, 0x80, 0x81, 0xfd, 0xff])]) + rng.randbytes(n - 1)
+    if x < 0.9:
+        return rng.randbytes(n - 1) + bytes([rng.choice([0x00, 0x80, 0xff])])
+    return (bytes([n & 0xff]) + rng.randbytes(n))[:n]
 
 
 def gen_wire(rng, faulty):
@@ -72,7 +87,12 @@ def gen_wire(rng, faulty):
                     body.append({"d": rng.randbytes(n).hex()})
                     rest -= n + 1
             msgs[0] = body
-        elif x < 0.045:
+        elif x < 0.06:
+            # MANY commands (a count limit on commands must not refuse what was serialised): 150-1200 opcodes / tiny pushes
+            n_ = rng.choice([150, 200, 201, 202, 256, 300, 600, 1200])
+            msgs = [[rng.choice([0x51, 0x76, 0xac]) if rng.random() < 0.5 else {"d": rng.randbytes(rng.randint(1, 3)).hex()}
+                     for _ in range(n_)]]
+        elif x < 0.065:
             # a script of >= 65536 bytes (0xfe length prefix): ~130 elements of ~515 bytes
             msgs = [[{"d": rng.randbytes(rng.randint(505, 520)).hex()} for _ in range(rng.randint(126, 132))]]
         if rng.random() < 0.08 and not faulty:
